@@ -65,10 +65,31 @@ def _driver_files():
 
 
 def _forwarding(rels):
-    """(number of places passing auth_strict_key on, number that pass something else than the parameter)"""
+    """(number of places passing auth_strict_key on, number that pass something else than the parameter).
+    Also refuses (TranslateError) any rebinding of the parameter on the way: a store to a NAME `auth_strict_key`
+    anywhere, a store to an attribute `.auth_strict_key` other than the one unpacking `_setup_auth(...)`, and a
+    `_setup_auth` that does not return the parameter itself."""
     n = bad = 0
     for rel in rels:
-        for node in ast.walk(_parse(rel)):
+        tree = _parse(rel)
+        for node in ast.walk(tree):
+            if isinstance(node, ast.Name) and node.id == PARAM and isinstance(node.ctx, (ast.Store, ast.Del)):
+                raise TranslateError(f"{rel}:{node.lineno}: {PARAM} is rebound before it is passed on")
+            if isinstance(node, (ast.Assign, ast.AnnAssign, ast.AugAssign)):
+                tg = node.targets if isinstance(node, ast.Assign) else [node.target]
+                flat = [x for t in tg for x in (t.elts if isinstance(t, (ast.Tuple, ast.List)) else [t])]
+                if any(isinstance(x, ast.Attribute) and x.attr == PARAM for x in flat):
+                    v = node.value
+                    ok = (isinstance(v, ast.Call) and isinstance(v.func, ast.Attribute) and v.func.attr == "_setup_auth") or \
+                         (isinstance(v, ast.Name) and v.id == PARAM)
+                    if not ok:
+                        raise TranslateError(f"{rel}:{node.lineno}: .{PARAM} assigned from something else than the parameter / _setup_auth()")
+            if isinstance(node, (ast.FunctionDef, ast.AsyncFunctionDef)) and node.name == "_setup_auth":
+                rets = [r for r in ast.walk(node) if isinstance(r, ast.Return)]
+                if not rets or not all(r.value is not None and any(isinstance(x, ast.Name) and x.id == PARAM for x in ast.walk(r.value))
+                                       for r in rets):
+                    raise TranslateError(f"{rel}: _setup_auth does not return the {PARAM} it was given")
+        for node in ast.walk(tree):
             if isinstance(node, ast.Call):
                 for kw in node.keywords:
                     if kw.arg == PARAM:
@@ -271,6 +292,20 @@ def _open_paths(name):
                         return n
         return None
 
+    pinned_dicts, first_binding = set(), {}
+    for n in ast.walk(fopen):
+        if isinstance(n, (ast.Assign, ast.AnnAssign)):
+            for t in (n.targets if isinstance(n, ast.Assign) else [n.target]):
+                if isinstance(t, ast.Subscript) and isinstance(t.slice, ast.Constant) and t.slice.value == "known_hosts" \
+                        and isinstance(t.value, ast.Name):
+                    pinned_dicts.add(t.value.id)
+                elif isinstance(t, ast.Subscript) and isinstance(t.slice, ast.Constant) and t.slice.value == "known_hosts":
+                    raise TranslateError(f"{rel}:{n.lineno}: known_hosts stored into something that is not a plain variable")
+    for n in ast.walk(fopen):
+        if isinstance(n, (ast.Assign, ast.AnnAssign)):
+            for t in (n.targets if isinstance(n, ast.Assign) else [n.target]):
+                if isinstance(t, ast.Name) and t.id in pinned_dicts and t.id not in first_binding:
+                    first_binding[t.id] = n
     kh_literal_none = None
     for n in ast.walk(fopen):
         if isinstance(n, ast.Dict):
@@ -284,19 +319,42 @@ def _open_paths(name):
             raise TranslateError(f"{rel}:{n.lineno}: call of interest inside a conditional expression: shape not translated")
 
     def simple(node, guarded):
-        """events of one straight-line statement in evaluation (= source position) order"""
+        """events of one straight-line statement in evaluation (= source position) order: calls of interest, the pin
+        (`X["known_hosts"] = <not None>`), and EVERYTHING that can change X["known_hosts"] afterwards: `= None` (unpin),
+        `X.update(<something from transport_options>)` (user override), any other update / pop / del / clear / setdefault /
+        rebinding / `|=` of a dict that gets pinned somewhere in open() (not translated)"""
         ev = []
         for n in ast.walk(node):
             if isinstance(n, ast.Call):
                 k = classify(n)
                 if k:
                     ev.append(((n.lineno, n.col_offset), ("call", k, guarded)))
-            if isinstance(n, (ast.Assign, ast.AnnAssign)):
+                f = n.func
+                if isinstance(f, ast.Attribute) and isinstance(f.value, ast.Name) and f.value.id in pinned_dicts:
+                    if f.attr == "update":
+                        user = any(isinstance(x, ast.Attribute) and x.attr == "transport_options" for a in n.args for x in ast.walk(a))
+                        ev.append(((n.end_lineno, n.end_col_offset), ("mut", "user-update" if user else "other-update", guarded)))
+                    elif f.attr in ("pop", "clear", "setdefault", "popitem", "__setitem__", "__delitem__"):
+                        ev.append(((n.end_lineno, n.end_col_offset), ("mut", f.attr, guarded)))
+            if isinstance(n, (ast.Assign, ast.AnnAssign, ast.AugAssign)):
                 for t in (n.targets if isinstance(n, ast.Assign) else [n.target]):
-                    if isinstance(t, ast.Subscript) and isinstance(t.slice, ast.Constant) and t.slice.value == "known_hosts":
+                    if isinstance(t, ast.Subscript) and isinstance(t.slice, ast.Constant) and t.slice.value == "known_hosts" \
+                            and not isinstance(n, ast.AugAssign):
                         v = n.value
                         if not (isinstance(v, ast.Constant) and v.value is None):
                             ev.append(((n.end_lineno, n.end_col_offset), ("pin", ast.dump(v), guarded, v)))
+                        else:
+                            ev.append(((n.end_lineno, n.end_col_offset), ("mut", "unpin", guarded)))
+                    elif isinstance(t, ast.Name) and t.id in pinned_dicts and not isinstance(n, ast.AnnAssign) and n is not first_binding.get(t.id):
+                        ev.append(((n.end_lineno, n.end_col_offset), ("mut", "rebinding", guarded)))
+            if isinstance(n, ast.AnnAssign) and isinstance(n.target, ast.Name) and n.target.id in pinned_dicts \
+                    and n is not first_binding.get(n.target.id):
+                ev.append(((n.end_lineno, n.end_col_offset), ("mut", "rebinding", guarded)))
+            if isinstance(n, ast.Delete):
+                for t in n.targets:
+                    if (isinstance(t, ast.Subscript) and isinstance(t.value, ast.Name) and t.value.id in pinned_dicts) or \
+                            (isinstance(t, ast.Name) and t.id in pinned_dicts):
+                        ev.append(((n.end_lineno, n.end_col_offset), ("mut", "del", guarded)))
         ev.sort(key=lambda x: x[0])
         return [e for _, e in ev]
 
@@ -369,10 +427,21 @@ def _open_paths(name):
     for ev, alive in seq(fopen.body, False):
         if alive is False:
             continue
-        calls, pins = [], []
+        calls, pins, overridable = [], [], False
         for e in ev:
             if e[0] == "pin":
                 pins.append(e)
+                overridable = False          # a pin after the user's options re-asserts the expected key
+                continue
+            if e[0] == "mut":
+                if not pins:
+                    continue                 # nothing pinned yet: what happens to the dict before the pin cannot unpin
+                if e[1] == "unpin":
+                    pins = []
+                elif e[1] == "user-update":
+                    overridable = True
+                else:
+                    raise TranslateError(f"{rel}: `{e[1]}` of the dict carrying known_hosts between the pin and connect(): not translated")
                 continue
             _, k, g = e
             if k == "connect":
@@ -383,7 +452,7 @@ def _open_paths(name):
                 if any(not pg for _, _, pg, _ in pins):
                     raise TranslateError(f"{rel}: known_hosts set outside the strict branch: shape not translated")
                 fallback = any(_may_yield_nothing(tree, cls, v, rel) for _, _, _, v in pins)
-                calls.append((f".connect {lbool(bool(pins))} {lbool(fallback)}", g))
+                calls.append((f".connect {lbool(bool(pins))} {lbool(fallback)} {lbool(bool(pins) and overridable)}", g))
             else:
                 calls.append(("." + k, g))
         if calls not in paths:
